@@ -252,6 +252,11 @@ class BodyMixin:
 
     @cache_in('environ[ ombott.request.body ]', read_only=True)
     def _body(self):
+        # a failed read has consumed part of the stream: reading on from there
+        # would run past the body, so a second access fails the same way
+        failed = self.environ.get('ombott.request.body_error')
+        if failed is not None:
+            self._raise(failed, RequestError)
         markup = None
         mp = MULTIPART_BOUNDARY_PATT.match(self.environ.get('CONTENT_TYPE', ''))
         try:
@@ -267,6 +272,7 @@ class BodyMixin:
             )
             body.ombott_markup = markup
         except RequestError as err:
+            self.environ['ombott.request.body_error'] = err.with_traceback(None)
             self._raise(err, RequestError)
         self.environ['wsgi.input'] = body
         body.seek(0)
